@@ -235,9 +235,71 @@ def configs(ctx):
     return out
 
 
+def many_eventgroups(args):
+    """N eventgroups requested from one server (N up to 300): the burst after start(), a refresh and the StopSubscribe
+    burst of stop() each carry all of them - the reference server holds exactly the requested set, then nothing"""
+    sid, count, ttl, refresh = args
+    from ..vloop import VLoop
+    loop = VLoop().install()
+    seam = RandomSeam(Choice())
+    seam.__enter__()
+    viols = []
+    try:
+        prot = make_sd(loop, timings(SUBSCRIBE_TTL=ttl, SUBSCRIBE_REFRESH_INTERVAL=refresh))
+        sub = prot.subscriber
+        srv = SRV["S1"]
+        want = set(range(1, count + 1))
+        for eg in sorted(want):
+            sub.subscribe_eventgroup(cfg_.Eventgroup(sid, 1, 1, eg, ("192.0.2.100", 3000), hdr.L4Protocols.UDP), srv)
+        held = set()
+        seen_since = set()
+
+        def absorb():
+            for t, it, data, addr in prot.transport.sent:
+                for msg in refcodec.dec_sd_datagram(data):
+                    for e in msg["entries"]:
+                        if e[0] == "subscribe" and addr == srv:
+                            (held.discard if e[4] == 0 else held.add)(e[5] & 0xFFFF)
+                            if e[4]:
+                                seen_since.add(e[5] & 0xFFFF)
+            prot.transport.sent.clear()
+
+        sub.start()
+        loop.settle()
+        absorb()
+        case = dict(many_eventgroups=count, ttl=ttl)
+        if held != want:
+            viols.append(("mirror", "misses-requested-many-eventgroups", f"{count} eventgroups requested from one server, after start "
+                          f"the server misses {sorted(want - held)[:5]}"))
+        if refresh is not None:
+            seen_since.clear()
+            loop.run_until(loop.time() + refresh + 2 ** -6)
+            absorb()
+            if seen_since != want:
+                viols.append(("refresh", "late-many-eventgroups", f"{count} eventgroups: not refreshed within one interval: "
+                              f"{sorted(want - seen_since)[:5]}"))
+        sub.stop()
+        loop.settle()
+        absorb()
+        if held:
+            viols.append(("mirror", "holds-after-stop-many-eventgroups", f"{count} eventgroups: after stop() the server still holds "
+                          f"{sorted(held)[:5]}"))
+    except Exception as e:  # noqa: BLE001
+        viols.append(("no-exception", type(e).__name__ + "-many-eventgroups", f"{type(e).__name__}: {e}"))
+    finally:
+        seam.__exit__(None, None, None)
+        loop.dispose()
+    return count, viols
+
+
 def check(ctx):
     details, viols = [], []
     samples = core.Samples()
+    jobs = [(sid_for(ctx.seed), n, ttl, refresh) for n in (3, 16, 17, 34, 35, 64, 65, 128, 255, 256, 300) for ttl, refresh in ((3, 2), (INF, None))]
+    for (sid_, n, ttl, refresh), (_, vs) in zip(jobs, core.pmap(many_eventgroups, jobs, 2)):
+        for clause, disc, detail in vs:
+            viols.append(core.Violation(ctx.prop, clause, disc, dict(many_eventgroups=n, ttl=ttl, refresh=refresh, seed=ctx.seed), detail=detail))
+    core.close_pool()
     for name, cfg, depth in configs(ctx):
         res, vs, det = e1.search(ctx, Sys, cfg, depth, name)
         core.close_pool()
@@ -256,4 +318,10 @@ def check(ctx):
 
 
 def replay(ctx, body):
+    if "many_eventgroups" in body["case"]:
+        c = body["case"]
+        _, vs = many_eventgroups((sid_for(c.get("seed", ctx.seed)), c["many_eventgroups"], c["ttl"], c["refresh"]))
+        for v in vs:
+            print("FAILS:", v)
+        return 1 if vs else 0
     return e1.replay_case(Sys, body)
